@@ -51,6 +51,11 @@ def is_alt(d):
     return str(d.get("driver", "")).endswith("@alt")
 
 
+def cov_flags():
+    """bin/covaudit only: coverage instrumentation for the library sources that checks compile with their own compiler commands"""
+    return ["--coverage", "-fprofile-update=atomic"] if os.environ.get("VERIF_COV") else []
+
+
 def opt_flags(alt=False):
     return list(ALT_FLAGS) if alt else ["-O1"]
 
